@@ -494,6 +494,24 @@ class Interp:
             return None
         if isinstance(st, ast.Return):
             return _Ret(self.expr(st.value, env) if st.value is not None else None)
+        if isinstance(st, (ast.Import, ast.ImportFrom)):
+            # an import inside a function: the names stand for what they are imported from (a repository module, or a library name a rule has a stand-in for)
+            for a in st.names:
+                if isinstance(st, ast.Import):
+                    full = a.name
+                    bound = a.asname or a.name.split(".")[0]
+                    if not a.asname:
+                        full = a.name.split(".")[0]
+                else:
+                    full = f"{st.module}.{a.name}" if st.module else a.name
+                    bound = a.asname or a.name
+                if full in self.repo.modules:
+                    env[bound] = _ModRef(self.repo.modules[full])
+                elif full in self.overrides:
+                    env[bound] = self.overrides[full]
+                else:
+                    env[bound] = _ImpRef(full)
+            return None
         if isinstance(st, ast.Raise):
             if st.exc is None or (isinstance(st.exc, ast.Name) and isinstance(env.get(st.exc.id), Raised)):
                 cur = env.get(st.exc.id) if st.exc is not None else (env.get("__exc__") or next((v for v in reversed(list(env.values())) if isinstance(v, Raised)), None))
@@ -709,6 +727,8 @@ class Interp:
             return [it.f[k_] for k_ in it.f["__fields__"]]  # a NamedTuple record is a tuple of its fields
         if isinstance(it, dict):
             return list(it.keys())
+        if isinstance(it, _Counter):
+            raise AnalysisError("absint: iteration over an unbounded counter")
         if isinstance(it, PyNative):
             return list(it)
         if isinstance(it, (set, frozenset)):
@@ -917,6 +937,22 @@ class Interp:
         self.call_f(init, [obj] + list(args), kwargs)
         return obj
 
+    def canon_name(self, d, env):
+        """`name` / `alias.rest` spelled through an import of the current module -> the fully qualified name, when that is the one a rule has given a stand-in for
+        (`from ufl.utils.indexflattening import shape_to_strides` makes `shape_to_strides` mean `ufl.utils.indexflattening.shape_to_strides`)"""
+        if not d or d in self.overrides:
+            return d
+        head, _, rest = d.partition(".")
+        if head in env:
+            return d
+        m = self.cur()
+        tgt = m.imports.get(head) if m is not None else None
+        if tgt and tgt != head:
+            full = tgt + ("." + rest if rest else "")
+            if full in self.overrides:
+                return full
+        return d
+
     def expr(self, e, env):
         if isinstance(e, ast.Constant):
             return e.value
@@ -925,6 +961,8 @@ class Interp:
                 return env[e.id]
             if e.id in self.overrides:
                 return self.overrides[e.id]
+            if self.canon_name(e.id, env) in self.overrides:
+                return self.overrides[self.canon_name(e.id, env)]
             g = self.resolve_global(e.id)
             if g is not None:
                 return g
@@ -972,6 +1010,8 @@ class Interp:
                 return "DataType." + e.attr
             if d and d in self.overrides:
                 return self.overrides[d]
+            if d and self.canon_name(d, env) in self.overrides:
+                return self.overrides[self.canon_name(d, env)]
             if d == "contextlib.suppress" and "contextlib" not in env:
                 return _PyCall(lambda *kinds: _Suppress(kinds))
             if d:
@@ -1031,6 +1071,13 @@ class Interp:
                 if meth:
                     return _PyCall(lambda *a, _m=meth, _b=base: self.call_f(_m, [_b] + list(a)))
                 return f"{base.name}.{e.attr}"
+            if isinstance(base, _ImpRef):
+                full = f"{base.name}.{e.attr}"
+                if full in self.overrides:
+                    return self.overrides[full]
+                if full in self.repo.modules:
+                    return _ModRef(self.repo.modules[full])
+                return _ImpRef(full)
             if isinstance(base, _ModRef):
                 if e.attr in base.mod.funcs:
                     return base.mod.funcs[e.attr]
@@ -1223,10 +1270,38 @@ class Interp:
                         out += x if isinstance(x, str) else self.to_str(x)
             return out
         if isinstance(e, ast.Dict):
-            return {self.expr(k, env): self.expr(v, env) for k, v in zip(e.keys, e.values)}
+            out_d = {}
+            for k, v in zip(e.keys, e.values):
+                if k is None:   # {**other, ...}
+                    other = self.expr(v, env)
+                    if not isinstance(other, dict):
+                        raise AnalysisError("absint: ** of a non-dict in a dict display")
+                    out_d.update(other)
+                else:
+                    out_d[self.expr(k, env)] = self.expr(v, env)
+            return out_d
         raise AnalysisError(f"absint: unsupported expression `{ast.unparse(e)[:60]}`")
 
     def comp(self, e, env):
+        # a generator expression over an unbounded counter is lazy: it is consumed with next()
+        if isinstance(e, ast.GeneratorExp) and len(e.generators) == 1:
+            it0 = self.expr(e.generators[0].iter, env)
+            if isinstance(it0, _Counter):
+                g0 = e.generators[0]
+                interp = self
+
+                class _LazyGen(_Counter):
+                    def __init__(self_):
+                        pass
+
+                    def __next__(self_):
+                        for _ in range(100000):
+                            env3 = dict(env)
+                            interp.store(g0.target, next(it0), env3)
+                            if all(interp.truth(interp.expr(c, env3), c) for c in g0.ifs):
+                                return interp.expr(e.elt, env3)
+                        raise AnalysisError("absint: lazy generator: no element found")
+                return _LazyGen()
         out = []
 
         def rec(gi, env2):
@@ -1327,12 +1402,17 @@ class Interp:
                 kw.update(d_)
                 continue
             kw[k.arg] = self.expr(k.value, env)
+        fn = self.canon_name(fn, env)
         if fn in self.overrides and isinstance(self.overrides[fn], _PyCall) and fn.split(".")[0] not in env:
             try:
                 return self.overrides[fn].fn(*vals, **kw)  # a stub given by the rule wins over the built-in models
             except (Raised, AnalysisError):
                 raise
+            except NotImplementedError as ex:
+                raise AnalysisError(f"absint: library model does not cover this call: {str(ex)[:80]}")
             except (TypeError, ValueError, KeyError, IndexError, ZeroDivisionError, AttributeError) as ex:
+                if isinstance(ex, TypeError) and any(t_ in str(ex) for t_ in ("unexpected keyword argument", "positional argument", "required keyword")):
+                    raise AnalysisError(f"absint: library model called with an unsupported signature: {str(ex)[:90]}")
                 raise Raised(f"{type(ex).__name__}: {str(ex)[:60]}")
         if fn == "super" and not vals:
             cur = self.fstack[-1] if self.fstack else None
@@ -1381,6 +1461,8 @@ class Interp:
             for v_ in vals:
                 out_.extend(self.iterate(v_))
             return out_
+        if fn in ("itertools.count", "count") and fn not in self.overrides and fn not in env and len(vals) <= 2 and not kw:
+            return _Counter(*vals)
         if fn in ("itertools.product", "product") and fn not in self.overrides and not kw.get("repeat"):
             import itertools as _it
             return [tuple(t) for t in _it.product(*[self.iterate(v_) for v_ in vals])]
@@ -1427,6 +1509,8 @@ class Interp:
             for x in self.iterate(vals[0]):
                 tot = self.binop(ast.Add(), tot, x)
             return tot
+        if fn == "next" and vals and isinstance(vals[0], _Counter):
+            return next(vals[0])
         if fn == "next" and len(vals) == 1 and isinstance(vals[0], list):
             if not vals[0]:
                 raise Raised("StopIteration")
@@ -1896,6 +1980,31 @@ class _Closure:
 class _ModRef:
     def __init__(self, mod):
         self.mod = mod
+
+
+class _Counter:
+    """itertools.count(start, step): an unbounded iterator; next() advances it"""
+
+    def __init__(self, start=0, step=1):
+        self.v, self.step = start, step
+
+    def __next__(self):
+        v = self.v
+        self.v += self.step
+        return v
+
+    def __iter__(self):
+        return self
+
+
+class _ImpRef:
+    """a library name imported inside a function for which no stand-in was given: only its further attributes can be looked up"""
+
+    def __init__(self, name):
+        self.name = name
+
+    def __repr__(self):
+        return f"<{self.name}>"
 
 
 class _Record:
